@@ -19,6 +19,8 @@ LEADER_REQUIRED = {
     "platform_position/datetime_of_first_point/date",
     "platform_position/datetime_of_first_point/day_of_year",
     "platform_position/datetime_of_first_point/seconds_of_day",
+    "attitude/data_points/*/time/day_of_year",
+    "attitude/data_points/*/time/millisecond_of_day",
     # a flag column
     "platform_position/occurrence_flag_of_a_leap_second",
     "facility_related_data_5/prf_switching_flag",
@@ -67,10 +69,15 @@ def is_preamble(path):
     return "/preamble/" in f"/{path}"
 
 
+FLAG_COLUMNS = __import__("re").compile(r"^attitude/data_points/\d+/(attitude|rates)/(pitch|roll|yaw)_error$")
+
+
 def leaf_class(path, node, required=()):
     """value | padding | enum | flag | required | preamble | datetime"""
     if is_preamble(path):
         return "preamble"
+    if FLAG_COLUMNS.match(path):
+        return "flag"
     if is_padding_path(path):
         return "padding"
     generic = "/".join("*" if p.isdigit() else p for p in path.split("/"))
@@ -188,6 +195,8 @@ class Filler:
                 return V.pad(str(code), width, rng)
             return code
         if cls == "flag":
+            if codec == "A-int":
+                return V.render_int(rng.choice([0, 0, 1, 1, rng.randrange(10 ** (width - 1))]), width, rng)
             return rng.choice([0, 1, 1, layout.BIN_MAX[codec], rng.randrange(layout.BIN_MAX[codec] + 1)])
         if cls == "required":
             raise KeyError(f"required field {path} has no value")
@@ -472,6 +481,7 @@ def build_image(img, rng, policy="decoy", mode="random"):
             pres["sensor_acquisition_date_microseconds"] = us
         for name, col in columns.items():
             pres[name] = col[i]
+        pres.update(img.get("line_overrides", {}).get(i, {}))
 
         def line_filler(path, node, width, codec, _i=i):
             top = path.split("/")[0]
@@ -651,3 +661,31 @@ def build_product(spec):
         entries, spec.get("newline", "\n"), spec.get("trailing_newline", True)
     ).encode()
     return files, info
+
+
+def pinned_spec(spec, info, changes):
+    """a spec that reproduces `info`'s product byte for byte except for `changes`
+
+    changes: {"leader": {path: value}, "volume": {...}, "header": {image index: {path: value}},
+              "lines": {image index: {line index: {path: value}}}}
+    """
+    new = dict(spec)
+    new["leader_overrides"] = {leaf.path: leaf.value for leaf in info["leader_leaves"]}
+    new["leader_overrides"].update(changes.get("leader", {}))
+    new["volume_overrides"] = {leaf.path: leaf.value for leaf in info["volume_leaves"]}
+    new["volume_overrides"].update(changes.get("volume", {}))
+    images = []
+    for k, (im, iinfo) in enumerate(zip(spec["images"], info["images"])):
+        im = dict(im)
+        im["raw"] = iinfo["raw"]
+        im["header"] = {leaf.path: leaf.value for leaf in iinfo["header_leaves"]}
+        im["header"].update(changes.get("header", {}).get(k, {}))
+        im.pop("blank_header", None)
+        lo = {}
+        for i, leaves in enumerate(iinfo["line_leaves"]):
+            lo[i] = {leaf.path: leaf.value for leaf in leaves}
+            lo[i].update(changes.get("lines", {}).get(k, {}).get(i, {}))
+        im["line_overrides"] = lo
+        images.append(im)
+    new["images"] = images
+    return new
